@@ -142,11 +142,28 @@ def _script_info(ctx, rel: str):
     return mi, opts, ctor, scope
 
 
+def _is_parse_args(e) -> bool:
+    return isinstance(e, ast.Call) and isinstance(e.func, ast.Attribute) and e.func.attr == "parse_args"
+
+
 def _args_var(scope) -> str:
+    """The variable that holds the parsed command line: bound to `<parser>.parse_args()` directly, or to the result of
+    a module-level helper all of whose returns are that call (or a local bound to it)."""
+    root = scope
+    while parent(root) is not None:
+        root = parent(root)
+    helpers = set()
+    for f in getattr(root, "body", []):
+        if isinstance(f, ast.FunctionDef):
+            rets = [r.value for r in ast.walk(f) if isinstance(r, ast.Return) and r.value is not None]
+            bound = {st.targets[0].id for st in ast.walk(f) if isinstance(st, ast.Assign) and len(st.targets) == 1
+                     and isinstance(st.targets[0], ast.Name) and _is_parse_args(st.value)}
+            if rets and all(_is_parse_args(r) or (isinstance(r, ast.Name) and r.id in bound) for r in rets):
+                helpers.add(f.name)
     for st in ast.walk(scope):
-        if isinstance(st, ast.Assign) and len(st.targets) == 1 and isinstance(st.targets[0], ast.Name) \
-                and isinstance(st.value, ast.Call) and isinstance(st.value.func, ast.Attribute) and st.value.func.attr == "parse_args":
-            return st.targets[0].id
+        if isinstance(st, ast.Assign) and len(st.targets) == 1 and isinstance(st.targets[0], ast.Name) and isinstance(st.value, ast.Call):
+            if _is_parse_args(st.value) or (isinstance(st.value.func, ast.Name) and st.value.func.id in helpers):
+                return st.targets[0].id
     raise AnalysisError("script: result of parse_args() is not bound to a variable")
 
 
